@@ -68,7 +68,8 @@ def make_basis(spec, d):
         # has computed (and cached) its own derived quantities: spec = ('derived', parent spec,
         # how, seed).  The derived basis is a different basis of the same shape.
         parent = make_basis(spec[1], d)
-        parent.four_element_traces
+        if len(parent) <= 16:
+            parent.four_element_traces      # (N^4 entries: only for small bases)
         parent.isherm, parent.isorthonorm, parent.istraceless, parent.iscomplete
         r = np.random.default_rng(spec[3])
         n = len(parent)
